@@ -25,8 +25,8 @@ PROPS_C15 = {
             "l0_multiword_tapes": 1000,
             "l1_fractions_enumerated": 10000,
             "l1_huge_denominator_cases": 50,
-            "taylor_l2_identities": 6,
-            "taylor_l3_identities": 6,
+            "taylor_l2_identities": 3,
+            "taylor_l3_identities": 3,
             "conf_exhaustive_complete_scripts": 100000,
             "conf_long_scripts": 300,
             "conf_random_scripts": 50000,
@@ -45,9 +45,9 @@ PROPS_C15 = {
             "arg_identities_L4-geometric>L2-bernoulli-exp1": 10000,
             "arg_identities_L6-gaussian>L5-laplace": 10000,
             "arg_identities_L6-gaussian>L3-bernoulli-exp": 10000,
-            "mass_configs_L4-geometric": 7,
-            "mass_configs_L5-laplace": 9,
-            "mass_configs_L6-gaussian": 5,
+            "mass_configs_L4-geometric": 4,
+            "mass_configs_L5-laplace": 5,
+            "mass_configs_L6-gaussian": 3,
             "mass_outputs_checked": 500,
             "reference_selfcheck_identities": 200,
             "e2e_tape_samples": 20000,
